@@ -25,6 +25,10 @@ func checkC04(w *World, r *Report) {
 		r.Undecided("anchors", "roles", "-", "internal cancel unresolved: "+strings.Join(ro.Errs, "; "))
 		return
 	}
+	// ---- 0. an acknowledged cancel survives a restart: the cancel reaches the store only with the next (debounced) save; a
+	// restart in between must not let the job run after all — every job found in the store ends terminal and is never
+	// queued or started again (load normalisation table, shared with C10/C03)
+	checkLoadNormalisation(w, r)
 	// ---- 1. cancel table
 	// evaluated on the exported cancel with the internal cancel (and any wrapper between them)
 	// spliced in: the table is about what a cancel request by id does, however the work is
